@@ -130,6 +130,8 @@ def _len(sx, args, kw, st, node):
         return ok(st, Val(V.Int, t.n(v.term)))
     if isinstance(t, V.Tuple):
         return ok(st, V.mk_int(len(t.items)))
+    if isinstance(t, V.Dict):
+        return ok(st, Val(V.Int, t.size(v.term)))
     if isinstance(t, V._Json):
         B = _B()
         j = B.J()
@@ -806,7 +808,7 @@ def mutable_method(sx, ref, attr, args, kwargs, st, node):
                     outs.append(R(st.fork().assume(z3.Not(has)), None, Exc("KeyError")))
                 st.assume(has)
                 res = got
-            st.setcell(ref.cell, Val(t, t.mk(z3.Store(t.dom(c.term), k.term, False), t.map(c.term))))
+            st.setcell(ref.cell, Val(t, t.remove(c.term, k.term)))
             outs.append(R(st, res))
             return outs
         if attr == "clear":
@@ -1204,6 +1206,32 @@ class ListIter:
         return sx.assign(stmt.target, Val(t.elem, t.at(self.seq.term, k.term)), st)
 
 
+class JsonIter:
+    """iteration over an opaque JSON array (items) / object (keys) / string (characters)"""
+
+    def __init__(self, jv):
+        self.jv = jv
+
+    def spec_env(self, st):
+        return {}
+
+    def bound(self, st):
+        return _B().J()["len"](self.jv.term)
+
+    def has_next(self, st, k):
+        return k.term < _B().J()["len"](self.jv.term)
+
+    def bind(self, sx, stmt, st, k):
+        B = _B()
+        j = B.J()
+        it = j["item"](self.jv.term, k.term)
+        for f in B.json_facts(it):
+            st.assume(f)
+        kd = j["kind"](self.jv.term)
+        st.assume(z3.Implies(z3.Or(kd == B.JDICT, kd == B.JSTR), j["kind"](it) == B.JSTR))
+        return sx.assign(stmt.target, Val(V.Json, it), st)
+
+
 class OpaqueIter:
     """iteration over an opaque iterable with a contract: unknown number of elements"""
 
@@ -1265,12 +1293,55 @@ def for_loop(sx, stmt, itv, st):
         return sx.run_loop(stmt, st, spec, "for", OpaqueIter(payload))
     if kind == "json":
         m = sx.reg.json_iter(sx, payload, st, stmt)
+        if m is None:
+            B = _B()
+            j = B.J()
+            kd = j["kind"](payload.term)
+            outs = []
+            bad = z3.Not(z3.Or(kd == B.JLIST, kd == B.JSTR, kd == B.JDICT))
+            if sx.feasible(st, bad):
+                outs.append(Out("raise", st.fork().assume(bad), Exc("TypeError")))
+            st.assume(z3.Not(bad))
+            outs.extend(sx.run_loop(stmt, st, spec, "for", JsonIter(payload)))
+            return outs
         return sx.run_loop(stmt, st, spec, "for", OpaqueIter(m))
     raise Unsupported("for over %s" % kind, stmt)
 
 
 def star_call(sx, node, st):
+    for h in getattr(sx.reg, "star_call_hooks", []):
+        m = h(sx, node, st)
+        if m is not None:
+            return m
     m = sx.reg.star_call(sx, node, st)
     if m is not None:
         return m
-    raise Unsupported("call with *args/**kwargs: %s" % ast.unparse(node.func), node)
+    # *args / **kwargs whose values are known python-level tuples / dicts: spliced
+    outs = []
+    for rf in sx.ev(node.func, st):
+        if rf.exc is not None:
+            outs.append(rf)
+            continue
+        argnodes = [a.value if isinstance(a, ast.Starred) else a for a in node.args] + [k.value for k in node.keywords]
+        results, raises = sx.ev_seq(argnodes, rf.st)
+        outs.extend(raises)
+        for vals, s in results:
+            args, kwargs = [], {}
+            for a, v in zip(node.args, vals[: len(node.args)]):
+                if isinstance(a, ast.Starred):
+                    if isinstance(v, Conc) and isinstance(v.v, tuple):
+                        args.extend(v.v)
+                    else:
+                        raise Unsupported("*args with a symbolic sequence: %s" % ast.unparse(node.func), node)
+                else:
+                    args.append(v)
+            for k, v in zip(node.keywords, vals[len(node.args):]):
+                if k.arg is None:
+                    if isinstance(v, Conc) and isinstance(v.v, dict):
+                        kwargs.update(v.v)
+                    else:
+                        raise Unsupported("**kwargs with a symbolic mapping: %s" % ast.unparse(node.func), node)
+                else:
+                    kwargs[k.arg] = v
+            outs.extend(sx.call(rf.val, args, kwargs, s, node))
+    return outs
